@@ -22,7 +22,7 @@ MINIMUMS = (1500, 300)
 LOGLINE = re.compile(r"^\S*\d{4}-\d\d-\d\dT\S+\s+(TRACE|DEBUG|INFO|WARN|ERROR)\b", re.M)
 ANSI = re.compile(r"\x1b\[[0-9;]*m")     # the log lines are coloured even when piped
 SUBCOMMANDS = ["version", "flow", "render", "check"]
-MODES = ["exit128", "exit1", "exit1-silent", "ok-empty", "ok-garbage", "ok-utf8", "ok-huge", "ok-negative", "killed", "exit128-long"]
+MODES = ["exit128", "exit1", "exit1-silent", "ok-empty", "ok-garbage", "ok-utf8", "ok-huge", "ok-negative", "killed", "exit128-long0", "exit128-long1", "exit128-long2"]
 
 
 def scrape_flags(bins):
